@@ -471,6 +471,9 @@ class Sem:
         for p, a in zip(f.params, args):
             if p.type_name == "Signal" and isinstance(a, IntV):
                 a = SigV(None, self.B.const(a.v), self.fresh_implicit())
+            if isinstance(a, SigV) and a.note is None:
+                # the argument's type reaches the body through a parameter (see KF-C15-inlined-result-type)
+                a = SigV(a.type, a.v, a.implicit_id, a.is_cmp, "param")
             local[p.name] = a
         scope = dict(self.globals_for_call(env))
         scope.update(local)
